@@ -869,7 +869,49 @@ def _confirm_arg_ok(c: Optional[T], e: Event):
         return False, "constant False without a prompt"
     if tm.is_const(c, True):
         return True, "constant True"
+    # a boolean function of the --no_warnings flag alone: by its truth table
+    vals = [_flag_eval(c, nw) for nw in (True, False)]
+    if None not in vals:
+        if vals == [False, True]:
+            return True, "equals not <args>.no_warnings"
+        return False, (f"is {vals[1]} with warnings enabled and {vals[0]} "
+                       f"with --no_warnings (expected True / False)")
     return None, "unrecognised provenance"
+
+
+def _flag_eval(t: T, nw: bool):
+    """truth value of a term built from <x>.no_warnings, constants and
+    boolean connectives, for the given flag value; None otherwise"""
+    t = Interp.unname(t)
+    if tm.is_const(t):
+        v = tm.const_val(t)
+        return bool(v) if isinstance(v, (bool, int, type(None))) else None
+    if t.op == "attr" and t.args[1] == "no_warnings":
+        return nw
+    if t.op == "unop" and t.args[0] == "Not" or t.op == "not":
+        v = _flag_eval(t.args[-1], nw)
+        return None if v is None else not v
+    if t.op == "boolop" or t.op in ("and", "or"):
+        kind = t.args[0] if t.op == "boolop" else t.op.capitalize()
+        parts = t.args[1] if t.op == "boolop" else t.args
+        vs = [_flag_eval(x, nw) for x in parts]
+        if None in vs:
+            return None
+        return all(vs) if kind == "And" else any(vs)
+    if t.op == "ite":
+        c_ = _flag_eval(t.args[0], nw)
+        return None if c_ is None else _flag_eval(t.args[1 if c_ else 2], nw)
+    if is_call_to(t, "builtins.bool") and len(t.args[1]) == 1:
+        return _flag_eval(t.args[1][0], nw)
+    if t.op == "cmp" and t.args[0] in ("Is", "Eq", "IsNot", "NotEq") and \
+            tm.is_const(t.args[2]) and isinstance(tm.const_val(t.args[2]),
+                                                  bool):
+        v = _flag_eval(t.args[1], nw)
+        if v is None:
+            return None
+        same = v == tm.const_val(t.args[2])
+        return same if t.args[0] in ("Is", "Eq") else not same
+    return None
 
 
 def _check_prompt(ctx):
